@@ -10,6 +10,12 @@ def atomBool : Sexp → Bool
   | .atom "true" => true
   | _ => false
 
+/-- Names scanned by a query term, read off the s-expression (`(scan name)` at any depth). -/
+partial def scansOf : Sexp → List String
+  | .list [.atom "scan", .atom t] => [t]
+  | .list xs => xs.flatMap scansOf
+  | _ => []
+
 /-- Parsed statement plus the observed leftover flag for CTAS (see `stepObs`). -/
 def parseStmt : Sexp → Option (Stmt × Bool)
   | .list [.atom "create-schema", .atom s, ine] => some (.createSchema s (atomBool ine), false)
@@ -17,15 +23,15 @@ def parseStmt : Sexp → Option (Stmt × Bool)
   | .list [.atom "create-table", .atom s, .atom n, ine, .atom w] => do
     pure (.createTable s n (atomBool ine) (← w.toNat?), false)
   | .list [.atom "create-view", .atom s, .atom n, .atom w, q] => do
-    pure (.createView s n (← w.toNat?) (← parseQuery q), false)
+    pure (.createView s n (← w.toNat?) (← parseQuery q) (scansOf q), false)
   | .list [.atom "drop", .atom s, .atom n, ie] => some (.dropObj s n (atomBool ie), false)
-  | .list [.atom "insert", .atom s, .atom n, q] => do pure (.insert s n (← parseQuery q), false)
+  | .list [.atom "insert", .atom s, .atom n, q] => do pure (.insert s n (← parseQuery q) (scansOf q), false)
   | .list [.atom "ctas", .atom s, .atom n, ine, .atom w, left, q] => do
-    pure (.ctas s n (atomBool ine) (← w.toNat?) (← parseQuery q), atomBool left)
+    pure (.ctas s n (atomBool ine) (← w.toNat?) (← parseQuery q) (scansOf q), atomBool left)
   | .list [.atom "set", .atom v, isb, .atom x] => do pure (.setVar v (atomBool isb) (← x.toInt?), false)
   | .list [.atom "reset", .atom v] => some (.resetVar v, false)
   | .list [.atom "show", .atom v] => some (.showVar v, false)
-  | .list [.atom "select", q] => do pure (.select (← parseQuery q), false)
+  | .list [.atom "select", q] => do pure (.select (← parseQuery q) (scansOf q), false)
   | .list [.atom "list"] => some (.listObjs, false)
   | _ => none
 
